@@ -4,6 +4,7 @@ import (
 	"context"
 	"net/http"
 	"net/url"
+	"sync"
 
 	"github.com/PapaCharlie/go-restli/v2/restli"
 	"github.com/PapaCharlie/go-restli/v2/restlicodec"
@@ -18,9 +19,63 @@ type Typed struct {
 	Strict    bool
 	Transport http.RoundTripper
 	Extra     http.Header
+	// Shared, when set, makes every call go through one shared *restli.Client; ReqID travels in X-Verif-Req and
+	// selects the per-call view of the shared wire tap.
+	Shared *SharedClient
+	ReqID  string
+}
+
+// SharedClient is one restli.Client used by many goroutines; its transport files every exchange under the
+// request id found in the X-Verif-Req header.
+type SharedClient struct {
+	Client *restli.Client
+	rt     http.RoundTripper
+	mu     sync.Mutex
+	views  map[string]*tap
+}
+
+func NewSharedClient(base *url.URL, threshold int, strict bool, rt http.RoundTripper) *SharedClient {
+	if rt == nil {
+		rt = http.DefaultTransport
+	}
+	s := &SharedClient{rt: rt, views: map[string]*tap{}}
+	s.Client = &restli.Client{Client: &http.Client{Transport: s}, HostnameResolver: fixedResolver{base}, StrictResponseDeserialization: strict, QueryTunnellingThreshold: threshold}
+	return s
+}
+
+func (s *SharedClient) RoundTrip(req *http.Request) (*http.Response, error) {
+	s.mu.Lock()
+	v := s.views[req.Header.Get("X-Verif-Req")]
+	s.mu.Unlock()
+	if v == nil {
+		return s.rt.RoundTrip(req)
+	}
+	return v.RoundTrip(req)
+}
+
+func (s *SharedClient) view(id string) *tap {
+	v := &tap{rt: s.rt}
+	s.mu.Lock()
+	s.views[id] = v
+	s.mu.Unlock()
+	return v
+}
+
+// Forget drops the per-call view of id.
+func (s *SharedClient) Forget(id string) {
+	s.mu.Lock()
+	delete(s.views, id)
+	s.mu.Unlock()
 }
 
 func (t *Typed) client() (*restli.Client, *tap, context.Context) {
+	if t.Shared != nil {
+		h := http.Header{"X-Verif-Req": {t.ReqID}}
+		for k, v := range t.Extra {
+			h[k] = v
+		}
+		return t.Shared.Client, t.Shared.view(t.ReqID), restli.ExtraRequestHeaders(context.Background(), func() (http.Header, error) { return h, nil })
+	}
 	rt := t.Transport
 	if rt == nil {
 		rt = http.DefaultTransport
